@@ -381,7 +381,8 @@ func EncodeW(c *runner.Ctx, x Encodable) *Enc {
 	e := &Enc{}
 	var buf bytes.Buffer
 	e.Panic = c.Guard(func() {
-		if x.Size() > MaxEncode {
+		// bytes that will really be written: a lazy mdat contributes its header only
+		if sz := x.Size(); sz-minU64(LazyMdatBytes(x), sz) > MaxEncode {
 			e.Skip = true
 			return
 		}
@@ -394,12 +395,20 @@ func EncodeW(c *runner.Ctx, x Encodable) *Enc {
 	return e
 }
 
+func minU64(a, b uint64) uint64 {
+	if a < b {
+		return a
+	}
+	return b
+}
+
 // EncodeSW encodes through the SliceWriter path into a FixedSliceWriter of
 // capacity Size()+slack (so that an over-long encode is seen as length).
 func EncodeSW(c *runner.Ctx, x Encodable, slack int) *Enc {
 	e := &Enc{}
 	e.Panic = c.Guard(func() {
 		s := x.Size()
+		s -= minU64(LazyMdatBytes(x), s) // a lazy mdat contributes its header only
 		if s > MaxEncode {
 			e.Skip = true
 			return
